@@ -264,3 +264,25 @@ Definition resolve_framer (reg : list (N * tkind)) (name : N) (contexts : list N
     | _ => if memN s contexts then FOk s else FResolveError (* not scheduled as one of contexts *)
     end
   end.
+
+(* ---------------------------------------------------------------------------------------- *)
+(* Part 5: call signature of a raise site  raise excepting.X(a1 .. an, k1=.., ..)  against X.__init__:
+   not more positionals than parameters, every keyword IS a parameter, not also given positionally,
+   not given twice -- otherwise constructing the exception raises TypeError *)
+
+Record rsite := mkrsite { r_file : N; r_line : N; r_cls : N; r_npos : N; r_kws : list N }.
+
+Fixpoint index_of (x : N) (l : list N) (i : N) : option N :=
+  match l with [] => None | y :: r => if N.eqb x y then Some i else index_of x r (i + 1) end.
+
+Fixpoint nodupb (l : list N) : bool :=
+  match l with [] => true | x :: r => negb (memN x r) && nodupb r end.
+
+Definition sig_ok (params : list N) (s : rsite) : bool :=
+  (r_npos s <=? N.of_nat (length params))
+  && forallb (fun k => match index_of k params 0 with Some i => r_npos s <=? i | None => false end) (r_kws s)
+  && nodupb (r_kws s).
+
+(* an exempt site counts only while its guard (extracted from the builder source) is in force *)
+Definition exempt_b (ex : list (N * N * bool)) (s : rsite) : bool :=
+  existsb (fun e => N.eqb (fst (fst e)) (r_file s) && N.eqb (snd (fst e)) (r_line s) && snd e) ex.
